@@ -304,7 +304,7 @@ pub mod air_interpreter_interface { pub use super::CALL_SERVICE_SUCCESS; }
 pub mod air_interpreter_data { pub use super::ValueRef; }
 
 // ---------------------------------------------------------------- shim: the context's sub-objects (trusted, opaque)
-pub struct Scalars<'i> { pub ph: PhantomData<&'i u8> }
+pub struct Scalars<'i> { pub opaque_payload: u64, pub ph: PhantomData<&'i u8> }
 impl<'i> Scalars<'i> {
     #[verifier::external_body]
     pub fn set_scalar_value(&mut self, name: &str, value: ValueAggregate) -> ExecutionResult<bool> { unimplemented!() }
